@@ -14,6 +14,14 @@ Part A  {% html_attrs %}: rendered as `<div {% html_attrs ... %}>` and parsed ba
 Part B  slot content handed to Component.render: content kind x string x every chain of <= 3 hops
         (first hop: render / render_to_response; later hops re-pass the normalised `self.input.slots` through
         Python `render`, through the dynamic component or through a template fill) x escape flag per hop.
+Part B2 content-object histories: ONE pool of content objects is built per history - the value itself, a callable
+        returning it (lambda / def function / functools.partial / instance with __call__ / bound method), one
+        `Slot(callable)` and one `Slot(Slot(callable))` - and then handed to every sequence of 2..3 top-level
+        `Component.render` calls, each step = (which pool object) x (receiving component: leaf with slot "s",
+        another leaf class with slot "t", a parent that re-passes its `self.input.slots` through Python `render`
+        with escaping on / off) x (escape_slots_content of THAT call). Every render of the history is judged by
+        the escape-exactly-once model for its own flag - what an earlier render did with the same function /
+        Slot object must not matter. (quick: 3-step histories only over the callable forms and the two leaves.)
 Part C  component js / css = every sequence of <= 3 end-tag look-alike tokens, through Component.render()
         and through render_dependencies() with placeholders.
 
@@ -567,6 +575,18 @@ def _chain_classes(chain):
     return cls
 
 
+def _slot_model(s, safe, flag0, chain):
+    """escape-exactly-once model of ONE top-level render -> (set of acceptable slot texts, outcome class)"""
+    from django.utils.html import escape
+
+    later_true = any(f is True for _, f in chain)
+    if safe or (not flag0 and not later_true):
+        return {s}, "verbatim"
+    if flag0:
+        return {escape(s)}, "escaped-once"
+    return {s, escape(s)}, "agnostic-0-or-1"
+
+
 def check_slot(kind, si, hop0, chain):
     """-> (clause or None, what, observation, outcome class)"""
     from django.utils.html import escape
@@ -574,14 +594,7 @@ def check_slot(kind, si, hop0, chain):
     s = S_STRINGS[si]
     cls = _chain_classes(tuple(tuple(h) for h in chain))
     how, flag0 = hop0
-    safe = kind.endswith("safe")
-    later_true = any(f is True for _, f in chain)
-    if safe or (not flag0 and not later_true):
-        allowed, klass = {s}, "verbatim"
-    elif flag0:
-        allowed, klass = {escape(s)}, "escaped-once"
-    else:
-        allowed, klass = {s, escape(s)}, "agnostic-0-or-1"
+    allowed, klass = _slot_model(s, kind.endswith("safe"), flag0, chain)
     wrap_l = "".join("(" for _ in chain) + "["
     wrap_r = "]" + "".join(")" for _ in chain)
     try:
@@ -613,6 +626,164 @@ def gen_slots(maxhops):
                         if any(chain[j][0] == "tpl" and chain[j + 1][0] != "tpl" for j in range(len(chain) - 1)):
                             continue
                         yield (kind, si, hop0, chain)
+
+
+# ====================================================================== part B2 (content-object histories)
+H_BASES = ["lambda", "def", "partial", "obj", "method"]  # what kind of callable returns the value
+H_FORMS = ["fn", "slot", "slotslot", "val"]  # which object of the history's pool is handed to a render
+H_FORMS_CALLABLE = ["fn", "slot", "slotslot"]
+H_COMPS = ["A", "B", "py1", "py0"]  # receiving component of a step
+H_COMPS_LEAF = ["A", "B"]
+# comp -> (later hops of the receiving component, slot name, text left / right of the slot)
+_H_COMP = {"A": ((), "s", "[", "]"), "B": ((), "t", "B:", ":B"),
+           "py1": ((("py", True),), "s", "([", "])"), "py0": ((("py", False),), "s", "([", "])")}
+
+
+class _CallableContent:
+    def __init__(self, val):
+        self.val = val
+
+    def __call__(self, ctx, data, ref):
+        return self.val
+
+    def method(self, ctx, data, ref):
+        return self.val
+
+
+def _first_arg(val, ctx, data, ref):
+    return val
+
+
+def _hist_pool(base, val):
+    """the content objects of one history - built once, every step re-uses these very objects"""
+    import functools
+
+    from django_components import Slot
+
+    if base == "lambda":
+        fn = lambda ctx, data, ref: val  # noqa: E731
+    elif base == "def":
+        def fn(ctx, data, ref):
+            return val
+    elif base == "partial":
+        fn = functools.partial(_first_arg, val)
+    elif base == "obj":
+        fn = _CallableContent(val)
+    elif base == "method":
+        fn = _CallableContent(val).method
+    else:
+        raise ValueError(base)
+    slot = Slot(fn)
+    return {"val": val, "fn": fn, "slot": slot, "slotslot": Slot(slot)}
+
+
+def _hist_class(comp):
+    if comp == "B":
+        cls = _SLOT_COMPS.get("B")
+        if cls is None:
+            from django_components import Component
+
+            cls = _SLOT_COMPS["B"] = type("C13LeafB", (Component,), {"__module__": "verif_c13", "template": 'B:{% slot "t" / %}:B'})
+        return cls
+    return _chain_classes(_H_COMP[comp][0])
+
+
+def _step_str(step):
+    form, comp, flag = step
+    return f"{form}@{comp}/{int(flag)}"
+
+
+def check_history(base, safe, si, steps):
+    """-> (clause or None, what, observations, index of the failing step or None, outcome classes of the steps run)"""
+    from django.utils.html import escape
+    from django.utils.safestring import mark_safe
+
+    s = S_STRINGS[si]
+    pool = _hist_pool(base, mark_safe(s) if safe else s)
+    obs, klasses = [], []
+    for j, (form, comp, flag) in enumerate(steps):
+        chain, slot_name, wl, wr = _H_COMP[comp]
+        allowed, klass = _slot_model(s, safe, flag, chain)
+        klasses.append(klass)
+        try:
+            out = _hist_class(comp).render(slots={slot_name: pool[form]}, escape_slots_content=flag, render_dependencies=False)
+        except Exception as e:
+            obs.append(("exc", type(e).__name__))
+            return f"exception:{type(e).__name__}", f"step {j + 1} ({_step_str(steps[j])}) raised {type(e).__name__}: {e}", tuple(obs), j, klasses
+        finally:
+            boot.clear_render_registries()
+        got = _ID_RE.sub("", _MARK_RE.sub("", out))
+        obs.append(got)
+        if got not in {wl + a + wr for a in allowed}:
+            if got == wl + escape(escape(s)) + wr:
+                times = "escaped twice"
+            elif got == wl + escape(s) + wr:
+                times = "escaped once"
+            elif got == wl + s + wr:
+                times = "not escaped"
+            else:
+                times = "rendered differently"
+            earlier = ", ".join(_step_str(x) for x in steps[:j]) or "-"
+            return ("escape", f"step {j + 1} ({_step_str(steps[j])}, escape_slots_content={flag}) after [{earlier}] on the same content "
+                    f"objects: slot text {got!r} - content {s!r} ({'safe' if safe else 'plain'}, {base}) was {times}; "
+                    f"expected {sorted(wl + a + wr for a in allowed)!r}", tuple(obs), j, klasses)
+    return None, "", tuple(obs), None, klasses
+
+
+def _hist_strings(thorough, n):
+    """string indices of the n-step histories (the strings themselves are part B's subject; a history needs one whose
+    0 / 1 / 2-fold escapings differ)"""
+    if not thorough:
+        return (0,)
+    return tuple(range(len(S_STRINGS))) if n == 2 else (0, 2)
+
+
+def gen_histories(thorough):
+    """(base, safe, string index, steps); shortest histories first. A history that never hands over a callable form
+    does not depend on the base - generated for the first base only."""
+    for n in (2, 3):
+        wide = thorough or n == 2
+        strings = _hist_strings(thorough, n)
+        step_opts = [(f, c, fl) for f in (H_FORMS if wide else H_FORMS_CALLABLE) for c in (H_COMPS if wide else H_COMPS_LEAF)
+                     for fl in (True, False)]
+        for steps in product(step_opts, repeat=n):
+            only_val = all(f == "val" for f, _, _ in steps)
+            for base in H_BASES:
+                if only_val and base != H_BASES[0]:
+                    continue
+                for safe in (False, True):
+                    for si in strings:
+                        yield (base, safe, si, steps)
+
+
+def _shrink_history(base, safe, si, steps, clause):
+    """greedy: cut everything after the failing step, drop earlier steps, canonical component / form / base"""
+    def fails(b, st):
+        r = check_history(b, safe, si, st)
+        return r[0] == clause and r[3] == len(st) - 1
+
+    j = check_history(base, safe, si, steps)[3]
+    cur = list(steps[: j + 1])
+    if not fails(base, cur):
+        return base, tuple(steps)
+    changed = True
+    while changed:
+        changed = False
+        cands = []
+        for k in range(len(cur) - 1):
+            cands.append((base, cur[:k] + cur[k + 1:]))
+        for k, (f, c, fl) in enumerate(cur):
+            if c != "A":
+                cands.append((base, cur[:k] + [(f, "A", fl)] + cur[k + 1:]))
+            if f not in ("fn", "val"):
+                cands.append((base, cur[:k] + [("fn", c, fl)] + cur[k + 1:]))
+        if base != H_BASES[0]:
+            cands.append((H_BASES[0], cur))
+        for b, st in cands:
+            if fails(b, st):
+                base, cur, changed = b, list(st), True
+                break
+    return base, tuple(cur)
 
 
 # ====================================================================== part C
@@ -725,6 +896,34 @@ def _misc_worker(w, W, payload):
             seen.add(ident)
             agg.fail(ident, f"chain {core} string {S_STRINGS[si]!r}: {what}",
                      {"part": "slots", "kind": kind, "string": si, "hop0": list(hop0), "chain": [list(h) for h in chain]})
+    for base, safe, si, steps in gen_histories(payload["thorough"]):
+        i += 1
+        if i % W != w:
+            continue
+        clause, what, obs, j, klasses = check_history(base, safe, si, steps)
+        agg.states += 1
+        agg.transitions += len(klasses)
+        agg.validated += len(klasses)
+        agg.extra["cases_B2"] += 1
+        agg.extra["renders_B2"] += len(klasses)
+        for klass in klasses:
+            agg.expected["history:" + klass] += 1
+        if len(set(klasses)) > 1:  # the same objects must come out escaped in one render and verbatim in another
+            agg.nontrivial += 1
+        agg.observe(obs)
+        if clause:
+            key = ("hist", clause, base, safe, steps[j][0], steps[j][2], frozenset((f, fl) for f, _, fl in steps[:j]))
+            if key in seen:
+                continue
+            seen.add(key)
+            cbase, csteps = _shrink_history(base, safe, si, steps, clause)
+            ident = f"history:{clause}:{cbase}:{'safe' if safe else 'plain'}:" + ">".join(_step_str(x) for x in csteps)
+            if ident in seen:
+                continue
+            seen.add(ident)
+            what2 = check_history(cbase, safe, si, csteps)[1] or what
+            agg.fail(ident, f"history {ident.split(':', 2)[2]} string {S_STRINGS[si]!r}: {what2}",
+                     {"part": "history", "base": cbase, "safe": safe, "string": si, "steps": [list(x) for x in csteps]})
     for kind, seq, path in gen_endtags(payload["endtag_len"]):
         i += 1
         if i % W != w:
@@ -771,7 +970,8 @@ def run(ctx):
     ev.rule = (
         "ENUM: every (defaults, attrs, extras) assignment / slot chain / js-css token string up to the bound is rendered by the "
         "real library and compared with the merge / escape-once / refuse-or-emit model; non-trivial = at least one source or extra "
-        "is given (A), the model demands exactly one escape (B), the string holds an end-tag look-alike (C)"
+        "is given (A), the model demands exactly one escape (B), the renders of one history over the same content objects "
+        "demand different outcomes (B2), the string holds an end-tag look-alike (C)"
     )
     # determinism self-test
     for t, _ in zip(gen_a2(), range(40)):
@@ -793,15 +993,22 @@ def run(ctx):
     )
     slot_hops = 4 if thorough else 3  # chains of 0 .. hops-1 later hops
     endtag_len = 4 if thorough else 3
-    misc = par.run_sharded(_misc_worker, {"slot_hops": slot_hops, "endtag_len": endtag_len})
+    n_h = sum(1 for _ in gen_histories(thorough))
+    print(f"C13: part B2 {n_h} content-object histories", flush=True)
+    misc = par.run_sharded(_misc_worker, {"slot_hops": slot_hops, "endtag_len": endtag_len, "thorough": thorough})
     fnd.merge_reports(misc.failures)
     ev.add_part(
         "names_slots_endtags", states=misc.states, transitions=misc.transitions, validated=misc.validated,
         nontrivial=misc.nontrivial, observed_distinct=len(misc.observed), expected=misc.expected,
         bound={"hostile_names": HOSTILE_NAMES, "slot_kinds": S_KINDS, "slot_strings": S_STRINGS, "later_hops_max": slot_hops - 1,
                "endtag_tokens": E_TOKENS, "endtag_len": endtag_len,
-               "A4": int(misc.extra["cases_A4"]), "B": int(misc.extra["cases_B"]), "C": int(misc.extra["cases_C"])},
+               "history_bases": H_BASES, "history_forms": H_FORMS, "history_components": H_COMPS, "history_steps": [2, 3],
+               "history_3step_space": "all forms x all components" if thorough else "callable forms x leaf components",
+               "history_strings": {str(n): [S_STRINGS[k] for k in _hist_strings(thorough, n)] for n in (2, 3)},
+               "A4": int(misc.extra["cases_A4"]), "B": int(misc.extra["cases_B"]), "B2": int(misc.extra["cases_B2"]),
+               "B2_renders": int(misc.extra["renders_B2"]), "C": int(misc.extra["cases_C"])},
         samples=[{"part": "slots", "kind": "fn_str", "string": "<b>&", "hop0": ["render", True], "chain": [["py", False], ["dyn", True]]},
+                 {"part": "history", "base": "lambda", "safe": False, "string": "<b>&", "steps": [["fn", "A", False], ["slot", "B", True]]},
                  {"part": "endtag", "kind": "js", "content": "x</SCRIPT>"}],
     )
     boot.reset_library()
@@ -829,6 +1036,11 @@ def replay(ctx, case):
     if part == "slots":
         clause, what, obs, klass = check_slot(case["kind"], case["string"], tuple(case["hop0"]), [tuple(h) for h in case["chain"]])
         print("output:", repr(obs))
+        print(what or "matches the model")
+        return clause is None
+    if part == "history":
+        clause, what, obs, j, klasses = check_history(case["base"], case["safe"], case["string"], [tuple(x) for x in case["steps"]])
+        print("outputs:", repr(obs))
         print(what or "matches the model")
         return clause is None
     if part == "endtag":
